@@ -50,8 +50,12 @@ def scen_cases(draw, kinds=KINDS, comps=("gzip", "zstd", "lz4", "xz", "default")
         o.update(keep_time=draw(st.booleans()), keep_xattr=draw(st.booleans()), no_hard_links=False)
         case.update(mode="dir", nodes=[mk(p, r) for p, r in rb_files] if readback else small_tree(draw, "dir"))
     elif kind == "gen_file" and exp_edge:
-        nn = 512 * draw(st.sampled_from([1, 1, 2])) + draw(st.sampled_from([0, 0, 0, -1, 1]))
-        case.update(mode="file", nodes=[dict(path=b"p%04d" % i, type="fifo" if i % 2 else "sock", mode=0o644, uid=0, gid=0, mtime=0, xattrs={}) for i in range(nn)])
+        nn = 512 * draw(st.sampled_from([1, 1, 2, 2])) + draw(st.sampled_from([0, 0, -1, -1, 1]))
+        # empty directories have 32 byte inodes (256 fill a metadata block exactly); with 1024 inodes the export table is one full block
+        if draw(st.booleans()):
+            case.update(mode="file", nodes=[dict(path=b"d%04d" % i, type="dir", mode=0o755, uid=0, gid=0, mtime=0, xattrs={}) for i in range(nn)])
+        else:
+            case.update(mode="file", nodes=[dict(path=b"p%04d" % i, type="fifo" if i % 2 else "sock", mode=0o644, uid=0, gid=0, mtime=0, xattrs={}) for i in range(nn)])
     elif kind == "gen_file":
         case.update(mode="file", nodes=[mk(p, r) for p, r in rb_files] if readback else small_tree(draw, "file"))
         ents = [(n["path"], n["xattrs"]) for n in case["nodes"] if n.get("xattrs") and n["type"] != "hlink" and b"\r" not in n["path"]
